@@ -482,6 +482,21 @@ def _describe(it: Interp, S: Summaries, kind: str, outcome) -> Any:
     return ("none",)
 
 
+def _field_repr(v) -> str:
+    if isinstance(v, Lst):
+        return "[" + ", ".join(_field_repr(x) for x in v.items) + "]"
+    if isinstance(v, Rec):
+        if v.cls.name == "Token":
+            t = v.fields.get("type")
+            return f"Token({'sym' + str(t.cid) if isinstance(t, SymChar) else t})"
+        return f"<{v.cls.name}>"
+    if isinstance(v, Node):
+        return "<node>"
+    if isinstance(v, Dct):
+        return "{" + ", ".join(sorted(repr(k) for k in v.items)) + "}"
+    return repr(v)
+
+
 def scenario_body(prog: Program, name: str, n: int):
     types = token_types(prog)
     pcls = prog.cls("ExpressionParser")
@@ -523,7 +538,7 @@ def scenario_body(prog: Program, name: str, n: int):
             fr = ("return", run_op(it, fresh, q))
         except AbsRaise as e:
             fr = ("raise", e)
-        it.scen = (log, fr, used)
+        it.scen = (log, fr, used, fresh)
         return None
     return body
 
@@ -535,7 +550,7 @@ def judge_scenario(prog: Program, S: Summaries, name: str, p: PathResult) -> dic
         rec["outcome"] = p.outcome
         rec["note"] = str(p.exc or p.note)
         return rec
-    log, fr, used = it.scen
+    log, fr, used = it.scen[:3]
     q = SCENARIOS[name][-1]
     last = [x for x in log if x[0] == q][-1][1]
     a = _describe(it, S, q[0], last)
@@ -551,6 +566,22 @@ def judge_scenario(prog: Program, S: Summaries, name: str, p: PathResult) -> dic
                 if v is last[1]:
                     rec["outcome"] = "aliased"
                     rec["note"] = "tokenize() hands out the cached list object itself"
+    # sticky state: after the same final parse, every non-cache field of the used parser must equal the fresh parser's
+    if q[0] == "parse" and isinstance(used, Rec):
+        fresh_obj = it.scen[3] if len(it.scen) > 3 else None
+        if isinstance(fresh_obj, Rec):
+            diffs = []
+            for k in sorted(set(used.fields) | set(fresh_obj.fields)):
+                if k in ("_parse_cache", "_tokens_cache", "tokenizer"):
+                    continue
+                a, b = used.fields.get(k, "<unset>"), fresh_obj.fields.get(k, "<unset>")
+                if _field_repr(a) != _field_repr(b):
+                    diffs.append(f"{k}: used {_field_repr(a)} / fresh {_field_repr(b)}")
+            if diffs and rec["outcome"] == "ok":
+                rec["outcome"] = "differs"
+                rec["used"] = "parser state after the call: " + "; ".join(diffs)[:300]
+                rec["fresh"] = "(state of a fresh parser after the same call)"
+                rec["note"] = "a field of the parser keeps a value from the earlier call"
     inv = {v: k for k, v in token_types(prog).items()}
     rec["types"] = {k: [sorted(inv.get(x, x) for x in it.charsets[s.cid]) for s in syms]
                     for k, syms in it.__dict__.get("text_types", {}).items()}
